@@ -515,6 +515,11 @@ func (r *Raft) Stop() {
 	// Stop accepting RPCs.
 	r.transport.Shutdown()
 
+	// Goroutines that were sending RPCs are not waited for above and may still
+	// access the log and the snapshot files once their RPC returns.
+	r.mu.Lock()
+	defer r.mu.Unlock()
+
 	if err := r.log.Close(); err != nil {
 		r.logger.Errorf("failed to close log: %v", err)
 	}
